@@ -102,7 +102,7 @@ Fixpoint zinsert {A} (key : A -> Z) (x : A) (l : list A) : list A :=
 Fixpoint zsort {A} (key : A -> Z) (l : list A) : list A :=
   match l with [] => [] | x :: t => zinsert key x (zsort key t) end.
 
-(* environment.go:NewZlispWithFuncs as it is now: the builtin names are sorted, then interned
+(* environment.go:NewZlispWithFuncs and gotypereg.go:ImportBaseTypes as they are now: the names are sorted, then interned
    one after the other; the symbol number of a name is its position in the sorted slice
    (offset by the numbers already given out). *)
 Fixpoint number_from {A} (next : nat) (l : list A) : list (A * nat) :=
@@ -110,8 +110,9 @@ Fixpoint number_from {A} (next : nat) (l : list A) : list (A * nat) :=
 Definition intern_sorted (next : nat) (order : list (Z * Z)) : list (Z * nat) :=
   number_from next (zsort (fun n => n) (map fst order)).
 
-(* gotypereg.go:ImportBaseTypes (class CallsOnly): env.AddGlobal(e.RegisteredName, e) for each
-   element IN WALK ORDER; AddGlobal interns the name, i.e. gives it the next symbol number. *)
+(* class CallsOnly, as gotypereg.go:ImportBaseTypes was before its repair (commit 68948c0; it now
+   sorts the names first, like NewZlispWithFuncs: intern_sorted): env.AddGlobal(e.RegisteredName, e)
+   for each element IN WALK ORDER; AddGlobal interns the name, i.e. gives it the next symbol number. *)
 Definition intern_in_walk_order (next : nat) (order : list (Z * Z)) : list (Z * nat) :=
   number_from next (map fst order).
 Definition symnum_of (name : Z) (tbl : list (Z * nat)) : option nat :=
@@ -186,8 +187,6 @@ Definition benign_sites : list listed := [
 
 (* walks that ARE order-dependent in the code as it is: the known findings (KNOWN_FINDINGS.txt) *)
 Definition known_nondeterministic : list listed := [
-  mkListed "gotypereg.go" "Zlisp.ImportBaseTypes" 0 "GoStructRegistry.Builtin" CallsOnly "basetypes-intern-order";
-  mkListed "gotypereg.go" "Zlisp.ImportBaseTypes" 1 "GoStructRegistry.Userdef" CallsOnly "basetypes-intern-order";
   mkListed "hashutils.go" "fillHashHelper" 0 "GoStructRegistry.Registry" EarlyExitFirstMatch "fillhash-first-registry-match";
   mkListed "callgo.go" "CallGoMethodFunction" 0 "GoStructRegistry.Registry" EarlyExitFirstMatch "callgo-first-registry-match";
   mkListed "jsonmsgp.go" "SexpToGo" 0 "e.Map" EarlyExitFirstMatch "togo-map-colliding-keys";
@@ -196,9 +195,7 @@ Definition known_nondeterministic : list listed := [
   mkListed "jsonmsgp.go" "SexpToGoStructs" 2 "src.Map" EarlyExitFirstMatch "togo-map-colliding-keys";
   mkListed "jsonmsgp.go" "SexpToGoStructs" 3 "src.Map" EarlyExitFirstMatch "togo-map-colliding-keys";
   mkListed "jsonmsgp.go" "SexpToGoStructs" 4 "src.Map" OrderObservable "togo-unknown-field-order";
-  mkListed "scopes.go" "Scope.Show" 0 "scop.Map" SortedAfter "scope-show-shared-printstate";
-  mkListed "repl.go" "runScript" 0 "precounts" OrderObservable "countfuncs-print-order";
-  mkListed "repl.go" "runScript" 1 "postcounts" OrderObservable "countfuncs-print-order"
+  mkListed "scopes.go" "Scope.Show" 0 "scop.Map" SortedAfter "scope-show-shared-printstate"
 ].
 
 Definition site_ok (s : site) : bool :=
